@@ -143,6 +143,24 @@ def allot_apalache(ctx, vectors):
         ctx.cov["obligations_unbounded_n"] = ctx.cov.get("obligations_unbounded_n", 0) + 1
 
 
+def inductive_apalache(ctx, module, guards=()):
+    """Apalache, unbounded integers: Init => IndInvFinal; IndInvFinal /\\ Next => IndInvFinal'; and the named guards, each a
+    (init, next, inv, length) that MUST be refuted (a deviation of the design, or reachability of the interesting states)."""
+    text = open(os.path.join(os.path.dirname(os.path.dirname(os.path.abspath(__file__))), "spec", module + ".tla")).read()
+    ok, out = ctx.apalache(text, module, inv="IndInvFinal", init="Init", length=0)
+    if not ok:
+        raise Infra("Apalache: Init does not establish IndInvFinal of %s (specification error)" % module)
+    ok, out = ctx.apalache(text, module, inv="IndInvFinal", init="IndInit", length=1)
+    if not ok:
+        raise Infra("Apalache: IndInvFinal of %s is not inductive (specification error)" % module)
+    ctx.cov["inductive_invariants_unbounded"] = ctx.cov.get("inductive_invariants_unbounded", 0) + 1
+    for (init, nxt, inv, length) in guards:
+        ok, out = ctx.apalache(text, module, inv=inv, init=init, length=length, next_=nxt)
+        if ok:
+            raise Infra("Apalache: vacuity guard of %s not refuted (init=%s next=%s inv=%s)" % (module, init, nxt, inv))
+        ctx.cov["apalache_guards_refuted"] = ctx.cov.get("apalache_guards_refuted", 0) + 1
+
+
 def split_pipeline(ctx, mode, trace_path, prop, tag):
     """TLC prints the state at every split point; the harness runs prefix/suffix; TLC judges the relation"""
     cfg = "SplitTrace_%s.cfg" % prop
